@@ -649,11 +649,11 @@ func TestC08(t *testing.T) {
 	emit("corpus", plain, 4, true, false, []sop{boundAlloc(1, 100, 2), plainOp("rollback-alloc"), boundAlloc(2, 0, 1), keepRealloc(0, -1, 0, "keep-shrink")})
 	emit("corpus", plain, 6, false, true, []sop{boundAlloc(1.5, 100, 1), unboundAlloc(0.3, 0, 3), keepRealloc(0, 0.2, 100, "keep-grow"), plainOp("rollback-realloc"), plainOp("release"), plainOp("release")})
 	// ---- random histories ----
-	n := r.N(150, 3000)
+	n := r.N(80, 3000)
 	for i := 0; i < n; i++ {
 		whole := g.chance(0.5)
 		spec := g.nodeSpec(100, whole)
-		emit("random", spec, 1+g.intn(25), whole, g.chance(0.5), nil)
+		emit("random", spec, 1+g.intn(22), whole, g.chance(0.5), nil)
 	}
 	r.Finish("corpus (NUMA-bound alloc + realloc: the repaired DeepCopy defect; rollbacks), then random histories of 1-25 operations (alloc of 1-3 bound/unbound workloads, rollback of the last alloc, release, realloc with keep-bind/bind/unbind x cpu grow/shrink/same x memory grow/shrink/same, rollback of the last realloc) on nodes with 1-8 cores, whole or odd shares, 0/2/3 NUMA nodes; workload resources optionally sent through JSON like calcium's store does. non-trivial = history contains a rollback or at least 5 operations")
 }
